@@ -12,6 +12,8 @@ import (
 	"io"
 	"sort"
 	"strings"
+
+	"github.com/wizenheimer/comet/internal/vrt"
 )
 
 // ---------------------------------------------------------------------------
@@ -26,6 +28,10 @@ type vConcIdx struct {
 	search2 func() ([]uint32, error)                  // the same with two queries / a query and a node id (nil if n/a)
 	flush   func() error
 	write   func() error
+	// snap (nil if n/a): WriteTo, then - outside the schedule - the written bytes are read
+	// into a fresh index, which must be internally consistent (an id is found by every
+	// modality and can be removed, or by none and cannot); returns the ids the snapshot holds
+	snap func() ([]uint32, error)
 }
 
 var vConcVecs = [][]float32{{1, 0}, {0, 1}, {3, 4}, {2, 2}}
@@ -148,6 +154,45 @@ func vConcKinds() map[string]func() *vConcIdx {
 					var a, b, c, d bytes.Buffer
 					return idx.WriteTo(&a, &b, &c, &d)
 				},
+				snap: func() (ids []uint32, err error) {
+					var a, b, c, d bytes.Buffer
+					if err := idx.WriteTo(&a, &b, &c, &d); err != nil {
+						return nil, err
+					}
+					vrt.Quiet(func() {
+						f2, _ := NewFlatIndex(2, Euclidean)
+						l := NewHybridSearchIndex(f2, NewBM25SearchIndex(), NewRoaringMetadataIndex())
+						if _, rerr := l.(*hybridSearchIndex).ReadFrom(io.MultiReader(&a, &b, &c, &d)); rerr != nil {
+							err = fmt.Errorf("snapshot taken during concurrent use cannot be read back: %v", rerr)
+							return
+						}
+						set := func(res []HybridSearchResult, e error) map[uint32]bool {
+							m := map[uint32]bool{}
+							for _, r := range res {
+								m[r.ID] = true
+							}
+							if e != nil && err == nil {
+								err = fmt.Errorf("search on the reloaded snapshot failed: %v", e)
+							}
+							return m
+						}
+						vs := set(l.NewSearch().WithVector([]float32{1, 1}).WithK(10).Execute())
+						ts := set(l.NewSearch().WithText("alpha").WithK(10).Execute())
+						ms := set(l.NewSearch().WithMetadata(Eq("s", "x")).WithK(10).Execute())
+						for id := uint32(1); id <= 4; id++ {
+							rem := l.Remove(id) == nil
+							if vs[id] != ts[id] || ts[id] != ms[id] || ms[id] != rem {
+								if err == nil {
+									err = fmt.Errorf("torn snapshot: document %d is in the reloaded index by vector=%v text=%v metadata=%v, removable=%v", id, vs[id], ts[id], ms[id], rem)
+								}
+							}
+							if vs[id] {
+								ids = append(ids, id)
+							}
+						}
+					})
+					return ids, err
+				},
 			}
 		},
 	}
@@ -185,6 +230,16 @@ func init() {
 	srch := func(x *vSchedExec, ix *vConcIdx, th string, r []uint32) {
 		x.Op(th, fmt.Sprintf("Search%v", r), func() ([]uint32, error) { return ix.search(r) })
 	}
+	// WriteTo as an operation: where the kind can read its snapshot back, the snapshot is
+	// judged like a search (op name "Search-in-snapshot": what it holds must respect the
+	// real-time order of completed adds / removals) and must not be torn
+	wr := func(x *vSchedExec, ix *vConcIdx) {
+		if ix.snap != nil {
+			x.Op("A", "Search-in-snapshot(WriteTo)", func() ([]uint32, error) { return ix.snap() })
+			return
+		}
+		x.Op("A", "WriteTo", func() ([]uint32, error) { return nil, ix.write() })
+	}
 	for _, k := range names {
 		mk := kinds[k]
 		k := k
@@ -219,7 +274,7 @@ func init() {
 		vScenarios = append(vScenarios, vIdxScenario(k, "S4-write-add-remove", mk,
 			func(ix *vConcIdx) { ix.add(2, 1); ix.add(3, 2) },
 			func(x *vSchedExec, ix *vConcIdx) {
-				x.Spawn("A", func() { x.Op("A", "WriteTo", func() ([]uint32, error) { return nil, ix.write() }) })
+				x.Spawn("A", func() { wr(x, ix) })
 				x.Spawn("B", func() { x.Op("B", "Add(1)", func() ([]uint32, error) { return nil, ix.add(1, 0) }) })
 				x.Spawn("C", func() { x.Op("C", "Remove(2)", func() ([]uint32, error) { return nil, ix.remove(2) }) })
 			}, []uint32{2, 3}, vNoErr,
@@ -258,7 +313,7 @@ func init() {
 		vScenarios = append(vScenarios, vIdxScenario(k, "S10-write-flush-add", mk,
 			func(ix *vConcIdx) { ix.add(1, 0); ix.add(2, 1); ix.remove(2) },
 			func(x *vSchedExec, ix *vConcIdx) {
-				x.Spawn("A", func() { x.Op("A", "WriteTo", func() ([]uint32, error) { return nil, ix.write() }) })
+				x.Spawn("A", func() { wr(x, ix) })
 				x.Spawn("B", func() { x.Op("B", "Flush", func() ([]uint32, error) { return nil, ix.flush() }) })
 				x.Spawn("C", func() { x.Op("C", "Add(3)", func() ([]uint32, error) { return nil, ix.add(3, 2) }) })
 			}, []uint32{1}, vNoErr,
